@@ -106,13 +106,13 @@ func (c *FenceConn) BeginTx(ctx context.Context, opts driver.TxOptions) (driver.
 		return nil, errors.New("operation unsupported")
 	}
 
+	if !tm.IsSeataContext(ctx) {
+		return nil, errors.New("there is not seata context")
+	}
+
 	tx, err := beginer.BeginTx(ctx, opts)
 	if err != nil {
 		return nil, err
-	}
-
-	if !tm.IsSeataContext(ctx) {
-		return nil, errors.New("there is not seata context")
 	}
 
 	// check if have been begin fence tx
@@ -124,6 +124,9 @@ func (c *FenceConn) BeginTx(ctx context.Context, opts driver.TxOptions) (driver.
 
 	fenceTx, err := c.TargetDB.BeginTx(ctx, &sql.TxOptions{})
 	if err != nil {
+		if rollbackErr := tx.Rollback(); rollbackErr != nil {
+			log.Error(rollbackErr)
+		}
 		return nil, err
 	}
 	defer func() {
@@ -144,7 +147,8 @@ func (c *FenceConn) BeginTx(ctx context.Context, opts driver.TxOptions) (driver.
 		return nil
 	}
 
-	if err := WithFence(ctx, fenceTx, emptyCallback); err != nil {
+	// assign the function-level err: the deferred cleanup above tests it
+	if err = WithFence(ctx, fenceTx, emptyCallback); err != nil {
 		return nil, err
 	}
 
